@@ -334,28 +334,31 @@ def _spec_call(e, name, args, st):
 
 def ext_sorted(e, args, kw, node, st):
     """sorted(xs) for xs: list of (Residue3D, Residue3D, str) compared with the tuple order built on Residue3D.__lt__:
-    the result is a permutation of xs (bijection pi / pinv between positions) and no later element is smaller than an
-    earlier one.  Of `not (out[w] < out[q])` (q < w) only these consequences are used; they hold because Residue3D.__eq__
-    (dataclass equality on label, auth, model, ...) implies equal ordering keys, so a < b implies a != b:
-        not res_lt(out[w][0], out[q][0]);   out[w][0] is out[q][0]  ->  not res_lt(out[w][1], out[q][1])."""
+    the result is a permutation of xs (bijection PI / PINV between positions: out[q] == xs[PI[q]]) and no later element is
+    smaller than an earlier one.  Of `not (out[w] < out[q])` (q < w) only these consequences are used; they hold because
+    Residue3D.__eq__ (dataclass equality on label, auth, model, ...) implies equal ordering keys, so a < b implies a != b:
+        not res_lt(out[w][0], out[q][0]);   out[w][0] is out[q][0]  ->  not res_lt(out[w][1], out[q][1]).
+    The bijection is made available to the proof as the ghost lists SORTED_PI / SORTED_PINV, the result as SORTED_OUT."""
     from pyvc.values import VList, fresh, sel
     xs = args[0]
     if kw or len(args) != 1 or not isinstance(xs, VList) or xs.eshape != ("tuple", (("ref", "Residue3D"), ("ref", "Residue3D"), ("str",))):
         raise Unsupported("sorted() of this value has no assumed contract here")
     n = to_z3(xs.length)
     out = fresh(("list", xs.eshape), uid("sorted"))
-    pi, pinv = z3.Function(uid("pi"), z3.IntSort(), z3.IntSort()), z3.Function(uid("pinv"), z3.IntSort(), z3.IntSort())
+    A = z3.ArraySort(z3.IntSort(), z3.IntSort())
+    pi, pinv = z3.Const(uid("sorted.pi"), A), z3.Const(uid("sorted.pinv"), A)
     q, w = z3.Int(uid("q")), z3.Int(uid("w"))
     st.assume(to_z3(out.length) == n)
-    same = z3.And(*[a == b for a, b in zip(_leaves(sel(out.elems, q)), _leaves(sel(xs.elems, pi(q))))])
-    st.assume(z3.ForAll([q], z3.Implies(z3.And(q >= 0, q < n), z3.And(pi(q) >= 0, pi(q) < n, pinv(pi(q)) == q, same)), patterns=[pi(q)]))
-    st.assume(z3.ForAll([q], z3.Implies(z3.And(q >= 0, q < n), z3.And(pinv(q) >= 0, pinv(q) < n, pi(pinv(q)) == q)), patterns=[pinv(q)]))
+    same = z3.And(*[a == b for a, b in zip(_leaves(sel(out.elems, q)), _leaves(sel(xs.elems, pi[q])))])
+    st.assume(z3.ForAll([q], z3.Implies(z3.And(q >= 0, q < n), z3.And(pi[q] >= 0, pi[q] < n, pinv[pi[q]] == q, same)), patterns=[pi[q]]))
+    st.assume(z3.ForAll([q], z3.Implies(z3.And(q >= 0, q < n), z3.And(pinv[q] >= 0, pinv[q] < n, pi[pinv[q]] == q)), patterns=[pinv[q]]))
     oq, ow = sel(out.elems, q).items, sel(out.elems, w).items
     lt0 = to_z3(_spec_call(e, "res_lt", [ow[0], oq[0]], st))
     lt1 = to_z3(_spec_call(e, "res_lt", [ow[1], oq[1]], st))
     st.assume(z3.ForAll([q, w], z3.Implies(z3.And(q >= 0, q < w, w < n),
                                            z3.And(z3.Not(lt0), z3.Implies(to_z3(ow[0].ident) == to_z3(oq[0].ident), z3.Not(lt1)))),
                         patterns=[z3.MultiPattern(to_z3(oq[0].ident), to_z3(ow[0].ident))]))
+    st.ghost["SORTED_PI"], st.ghost["SORTED_PINV"], st.ghost["SORTED_OUT"] = VList(n, pi, ("int",)), VList(n, pinv, ("int",)), out
     e.last_enum = out  # lets the loop over the sorted list name it (loop option "seq")
     return out
 
@@ -436,7 +439,8 @@ def dot3(a, b):
 
 @spec
 def ndot(r1, r2):
-    return dot3(some(r1.base_normal_vector), some(r2.base_normal_vector))
+    """dot product of the two base normals (numpy.dot, see ext_dot)"""
+    return dot(some(r1.base_normal_vector), some(r2.base_normal_vector))
 
 
 @spec
@@ -551,6 +555,7 @@ _EL = lambda a: f"elig({_S}[{a}], model)"
 _RM = lambda k: f"rm(coordinates_residue_map, coordinates, {k})"
 _RI, _RJ = _RM("EN[SRC2[m]][0]"), _RM("EN[SRC2[m]][1]")
 _UI, _UJ = _RM("EN[u][0]"), _RM("EN[u][1]")
+_AM, _BM = "SRC0[EN[SRC2[m]][0]]", "SRC0[EN[SRC2[m]][1]]"
 
 
 class find_stackings_c:
@@ -611,7 +616,7 @@ class find_stackings_c:
             f"forall(lambda m: implies(0 <= m and m < len(pairs), 0 <= SRC2[m] and SRC2[m] < t and POS2[SRC2[m]] == m "
             f"and stk({_RI}, {_RJ}, EPS) and pair_loose(pairs[m], {_RI}, {_RJ})), pats=['SRC2[m]', 'ident(pairs[m][0])'])",
             f"forall(lambda u: implies(0 <= u and u < t, (POS2[u] == 0 - 1 or (0 <= POS2[u] and POS2[u] < len(pairs) and SRC2[POS2[u]] == u)) "
-            f"and implies(stk({_UI}, {_UJ}, 0 - EPS), 0 <= POS2[u] and pair_tight(pairs[POS2[u]], {_UI}, {_UJ}))), pats=['POS2[u]'])",
+            f"and implies(stk({_UI}, {_UJ}, 0 - EPS), 0 <= POS2[u] and pair_tight(pairs[POS2[u]], {_UI}, {_UJ}))), pats=['POS2[u]', 'EN[u][0]'])",
             "forall(lambda m, w: implies(0 <= m and m < w and w < len(pairs), SRC2[m] < SRC2[w]), pats=[['SRC2[m]', 'SRC2[w]']])",
         ]},
         3: {"index": "q3", "seq": "SP", "inv": [
@@ -641,6 +646,18 @@ class find_stackings_c:
          "do": [f"assert forall(lambda k: implies(0 <= k and k < len(coordinates), coordinates[k] == cen({_RM('k')}) and implies(not is_none({_RM('k')}.base_normal_vector), "
                 f"dot3(some({_RM('k')}.base_normal_vector), some({_RM('k')}.base_normal_vector)) > 0)), pats=['coordinates[k][0]'])",
                 f"assert forall(lambda k, w: implies(0 <= k and k < w and w < len(coordinates), {_RM('k')} != {_RM('w')} and coordinates[k] != coordinates[w]), pats=[['coordinates[k][0]', 'coordinates[w][0]']])"]},
+        {"when": "before", "at": "stackings = []", "label": "pairs-vs-definition",
+         "do": [f"assert forall(lambda m: implies(0 <= m and m < len(pairs), 0 <= {_AM} and {_AM} < {_BM} and {_BM} < {_N} and {_EL(_AM)} and {_EL(_BM)} "
+                f"and stk({_S}[{_AM}], {_S}[{_BM}], EPS) and pair_loose(pairs[m], {_S}[{_AM}], {_S}[{_BM}])), pats=['SRC2[m]', 'ident(pairs[m][0])'])",
+                "assert forall(lambda m, w: implies(0 <= m and m < w and w < len(pairs), not (pairs[m][0] == pairs[w][0] and pairs[m][1] == pairs[w][1])), "
+                "pats=[['ident(pairs[m][0])', 'ident(pairs[w][0])']])",
+                f"assert forall(lambda a, b: implies(0 <= a and a < b and b < {_N} and {_EL('a')} and {_EL('b')} and stk({_S}[a], {_S}[b], 0 - EPS), "
+                f"(POS0[a], POS0[b]) in kdtree.query_pairs(D_MAX)), pats=[['ident({_S}[a])', 'ident({_S}[b])']])",
+                f"assert forall(lambda a, b: implies(0 <= a and a < b and b < {_N} and {_EL('a')} and {_EL('b')} and stk({_S}[a], {_S}[b], 0 - EPS), "
+                f"exists(lambda m: 0 <= m and m < len(pairs) and pair_tight(pairs[m], {_S}[a], {_S}[b]))), pats=[['ident({_S}[a])', 'ident({_S}[b])']])"]},
+        {"when": "before", "at": "return stackings", "label": "records-vs-pairs",
+         "do": ["assert len(stackings) == len(pairs) and forall(lambda q: implies(0 <= q and q < len(stackings), 0 <= SORTED_PI[q] and SORTED_PI[q] < len(pairs) "
+                "and SORTED_PINV[SORTED_PI[q]] == q and rec_of(stackings[q], pairs[SORTED_PI[q]])), pats=['stackings[q].topology'])"]},
         {"when": "after", "at": "pairs = []", "label": "ghost-init2", "do": ["let SRC2 = empty('list[int]')", "let POS2 = empty('list[int]')"]},
         {"when": "after", "at": "residue_j =", "label": "pair-of-step",
          "do": [f"assert 0 <= i and i < j and j < len(coordinates) and residue_i == {_RM('i')} and residue_j == {_RM('j')}"]},
